@@ -1024,6 +1024,11 @@ ADDENDA["C35"] = ADDENDA.get("C35", "") + (" The contracts of the event-loop run
 ADDENDA["C32"] = ADDENDA.get("C32", "") + (" Every critical section of run() is checked against the runner's guarantee where the lock is released (the queue loses at most its "
                                           "head; the list object producers append to is replaced only together with the fault latch).")
 ADDENDA["C33"] = ADDENDA.get("C33", "") + " Every dispose scenario is also run with the loop started / stopped between the schedule call and dispose()."
+ADDENDA["C40"] = ADDENDA.get("C40", "") + (" What 'the subscription terminates' means - the class contract of AutoDetachObserver (a terminal notification disposes the subscription "
+                                          "also when the subscriber's handler raises) and the function contract of Observable.subscribe - is re-proved inside this check.")
+for _p in ("C20", "C21", "C22", "C23"):
+    ADDENDA[_p] = ADDENDA.get(_p, "") + (" Every method of the subject touches the state handed to new subscribers (observers, exception, value, has_value, queue) only under "
+                                        "the subject's lock (AST obligation; helpers called only under the lock are exempt).")
 for _p in ("C28", "C29"):
     ADDENDA[_p] = ADDENDA.get(_p, "") + (" start / advance_to / advance_by called from inside an action (a run is in progress) change nothing: still enabled, clock and queue "
                                         "untouched, nothing run by the nested call.")
